@@ -25,7 +25,7 @@ ASSUMPTIONS = ['"no effect" of a refused request is judged on the canonical stat
                '(a refusal is synchronous), which is equivalent to the differential run without Y']
 
 XS = ['start', 'stop', 'restart', 'reload', 'incr', 'decr', 'set', 'add', 'rm', 'reloadconfig', 'quit', 'check',
-      'stop-all', 'start-all', 'restart-glob']
+      'stop-all', 'start-all', 'restart-glob', 'stop-glob-two', 'start-glob-two', 'restart-glob-two']
 SYNC_FAIL = ['set-singleton', 'add-bad-hook', 'add-empty-name']
 ASYNC_FAIL = ['incr-bad-nb', 'reloadconfig-nofile', 'start-popen-runtimeerror', 'incr-popen-runtimeerror', 'restart-popen-runtimeerror',
               'check-popen-runtimeerror', 'start-exec-fault', 'start-hook-raise', 'reloadconfig-popen-runtimeerror']
@@ -60,7 +60,9 @@ def y_menu(world):
            Req('add', label='add(z,start)', name='z', cmd='sleep 1', start=True),
            Req('rm', label='rm(b)', name='b'), Req('reloadconfig'), Req('quit'),
            Req('stop', label='stop(all)'), Req('start', label='start(all)'), Req('restart', label='restart(*)', name='*'),
-           Req('reload', label='reload(all)')]
+           Req('reload', label='reload(all)'),
+           Req('stop', label='stop([ab])', name='[ab]'), Req('start', label='start([ab])', name='[ab]'),
+           Req('restart', label='restart([ab])', name='[ab]')]
     return [Y(e) for e in evs]
 
 
@@ -155,6 +157,15 @@ def run(scn, ch):
             xr = world.request('start')
         elif x == 'restart-glob':
             xr = world.request('restart', name='*')
+        elif x == 'stop-glob-two':
+            # a pattern that selects two watchers takes the several-watchers path of the command
+            xr = world.request('stop', name='[ab]')
+        elif x == 'restart-glob-two':
+            xr = world.request('restart', name='[ab]')
+        elif x == 'start-glob-two':
+            world.request('stop', name='[ab]')
+            world.run(until=lambda w: w.slot() is None, horizon=3)
+            xr = world.request('start', name='[ab]')
         elif x in ('check', 'check-popen-runtimeerror'):
             # a worker of `a` dies: the next periodic check respawns (with the warmup delay) -> check in flight
             p = world.procs_of('a', [RUNNING])
